@@ -94,6 +94,16 @@ theorem exact_radius_on_collection (c : Coll) (segs : List Seg) (docs : DocStore
   obtain ⟨h1, h2⟩ := exact_radius R (exactCands c dist flt vis)
   exact ⟨h1.trans ((exactCands_spec c segs docs h dist flt vis hv).filter _), h2⟩
 
+/-- **PercentSearched = 100**: the exact scan calls `consider` successfully once per live document — the
+    number of candidates equals `GetDocumentCount`, which is what `pointsSearched / numRecords` compares -/
+theorem exact_scan_visits_every_document (c : Coll) (segs : List Seg) (docs : DocStore) (h : CRep2 c segs docs)
+    (dist : List Nat → Nat) (flt : Nat → Bytes → Bool) (vis : List (Bytes × Nat)) (hv : vis.Perm c.sf.index) :
+    ((exactCands c dist flt vis).length : Int) = getCount c := by
+  have h1 := (exactCands_spec c segs docs h dist flt vis hv).length_eq
+  have h2 := congrArg List.length (specCands_ids docs dist flt (getAllIDs c) (fun id hid => (allIDs_mem c segs docs h id).mp hid))
+  rw [List.length_map] at h2
+  rw [count_spec c segs docs h, h1, h2]
+
 /-- … after **any history** of document operations on a collection (each operation fitting the file
     bounds): the exact search answers from the final abstract store -/
 theorem exact_search_after_any_history (ops : List DocOp) (c : Coll) (segs : List Seg) (docs : DocStore)
